@@ -979,6 +979,48 @@ pub(crate) fn restore_replay_base<P: ProvenanceStore>(
             });
         }
 
+        // The embedded replay metadata must describe exactly the checkpoint
+        // coordinate and must be anchored in the authoritative chain; a store
+        // that hands back a checkpoint whose state was taken at another tick
+        // (equal state roots across a no-op tick) or whose history was
+        // dropped must not be trusted.
+        let checkpoint_tick = checkpoint.checkpoint.worldline_tick;
+        if checkpoint.state.current_tick() != checkpoint_tick {
+            return Err(ReplayError::History(
+                HistoryError::CheckpointReplayMetadataMismatch {
+                    tick: checkpoint_tick,
+                    field: "tick_history_len",
+                },
+            ));
+        }
+        if checkpoint.state.tx_counter != checkpoint_tick.as_u64() {
+            return Err(ReplayError::History(
+                HistoryError::CheckpointReplayMetadataMismatch {
+                    tick: checkpoint_tick,
+                    field: "tx_counter",
+                },
+            ));
+        }
+        if let Some(commit_tick) = checkpoint_tick.checked_sub(1) {
+            let expected_tip = provenance
+                .entry(worldline_id, commit_tick)?
+                .expected
+                .commit_hash;
+            let embedded_tip = checkpoint
+                .state
+                .tick_history
+                .last()
+                .map(|(snapshot, _, _)| snapshot.hash);
+            if embedded_tip != Some(expected_tip) {
+                return Err(ReplayError::History(
+                    HistoryError::CheckpointReplayMetadataMismatch {
+                        tick: checkpoint_tick,
+                        field: "tick_history.snapshot",
+                    },
+                ));
+            }
+        }
+
         return Ok((checkpoint.state, checkpoint.checkpoint.worldline_tick));
     }
 
